@@ -46,6 +46,9 @@ func compileSpec(s ReSpec) (re *regexp2.Regexp, err error) {
 	if s.NoBitmap {
 		opts = append(opts, regexp2.OptionDisableCharClassASCIIBitmap())
 	}
+	if s.KeepOrder {
+		opts = append(opts, regexp2.OptionMaintainCaptureOrder())
+	}
 	re, err = regexp2.Compile(s.Pat, opts...)
 	if err == nil && s.TimeoutNs > 0 {
 		re.MatchTimeout = time.Duration(s.TimeoutNs)
